@@ -90,9 +90,10 @@ func init() {
 			}
 			if c.Stats.Get(f+".deposit") == 0 && c.Vars["dep_"+f] == 0 {
 				c.Vars["dep_"+f] = 1
+				c.NewDepositor(c.fractionalAboveMax(), c.Rng.Chance(40))
 				c.NewDepositor(c.Spec.MAX_EFFECTIVE_BALANCE, c.Rng.Chance(40))
-				c.TopUp(common.ValidatorIndex(c.Rng.Intn(len(c.Vals))), c.Spec.MIN_DEPOSIT_AMOUNT)
-				c.Stats.Add("deposits_queued", 2)
+				c.TopUp(common.ValidatorIndex(c.Rng.Intn(len(c.Vals))), c.Spec.MIN_DEPOSIT_AMOUNT+c.Spec.EFFECTIVE_BALANCE_INCREMENT/4)
+				c.Stats.Add("deposits_queued", 3)
 			}
 		},
 		Mode: func(c *Chain, e common.Epoch) string {
